@@ -3310,8 +3310,10 @@ class Parameters:
                 # dealing with object and it's been set on this object
                 value = cls_or_slf._param__private.values[name]
             else:
-                # dealing with class or isn't set on the object
-                value = param_obj.default
+                # dealing with class or isn't set on the object: the class-level
+                # default applies (a per-instance Parameter copy can predate a
+                # later class-level assignment)
+                value = self_.cls.param.objects(instance=False)[name].default
 
         return value
 
